@@ -52,6 +52,8 @@ func modeC18() {
 		for pos := 1; pos <= 3; pos++ {
 			cfg := &router.Config{Upstreams: []router.UpstreamConfig{{Tag: "u1", Addr: "udp://" + u.addr}}, Rules: []router.RuleConfig{{Forward: "u1"}}}
 			ports := make([]int, 3)
+			mport := freePort(false)
+			cfg.Metrics.Addr = fmt.Sprintf("127.0.0.1:%d", mport) // started before the listeners: released as well
 			var blocker interface{ Close() error }
 			for i, k := range kinds {
 				ports[i] = freePort(k == "udp")
@@ -97,6 +99,10 @@ func modeC18() {
 					rebound = false
 				}
 			}
+			if !canBind("tcp", mport) {
+				rebound = false
+				es += " [metrics endpoint still listening]"
+			}
 			if blocker != nil {
 				blocker.Close()
 			}
@@ -138,7 +144,7 @@ func modeC18() {
 	// whole router: all listener kinds, a few queries, then close
 	base := sockFDs()
 	in, err := newInst("c18-all", instOpts{listeners: allListeners, upstreams: map[string]string{"u1": "udp", "u2": "tcp", "u3": "tcp+pipeline"},
-		rules: []ruleSpec{{Set: "", Forward: "u1"}}, cacheMem: 1 << 20})
+		rules: []ruleSpec{{Set: "", Forward: "u1"}}, cacheMem: 1 << 20, metrics: true})
 	if err != nil {
 		panic(err)
 	}
@@ -150,7 +156,7 @@ func modeC18() {
 	dur := int(time.Since(t0) / time.Millisecond)
 	// no listening socket is left when Close has returned: every address can be bound again at once
 	nowBound := []string{}
-	for _, lst := range allListeners {
+	for _, lst := range append([]string{"metrics"}, allListeners...) {
 		if !canBind(lst, in.ports[lst]) {
 			nowBound = append(nowBound, lst)
 		}
@@ -163,7 +169,7 @@ func modeC18() {
 	time.Sleep(600 * time.Millisecond)
 	rebound := true
 	notRebound := []string{}
-	for _, lst := range allListeners {
+	for _, lst := range append([]string{"metrics"}, allListeners...) {
 		if !canBind(lst, in.ports[lst]) {
 			rebound = false
 			notRebound = append(notRebound, lst)
